@@ -313,7 +313,7 @@ func init() {
 			big := 0
 			addD := func(c *x509.Certificate, what string) {
 				allow := false
-				if k, ok := c.PublicKey.(*dsa.PublicKey); ok && k != nil && k.P != nil && k.P.BitLen() >= 1024 && tier() == "thorough" && big < 3 {
+				if k, ok := c.PublicKey.(*dsa.PublicKey); ok && k != nil && k.P != nil && k.P.BitLen() >= 1024 && tier() == "thorough" && big < 1 {
 					allow = true
 				}
 				if term, tag, ok := dsaCase(c, allow); ok && !seenD[term] {
